@@ -772,3 +772,49 @@ M('rm-directory-does-not-ask-the-pvds-first', 'fault', ['C14'], ['SA-VBM'],
 M('insertion-tests-only-first-rock-ridge-name', 'fault', ['C13', 'C14'], ['SA-SIB.query_twin'],
   [(DR, "                for other_index in range(rr_index, len(self.rr_children)):\n                    other_rr = self.rr_children[other_index].rock_ridge\n                    if other_rr is None or other_rr.name() != child.rock_ridge.name():\n                        break\n                    if not other_rr.relocated_record():\n                        raise pycdlibexception.PyCdlibInvalidInput('Failed adding duplicate Rock Ridge name to parent')\n",
     "                if rr_index != len(self.rr_children):\n                    other_rr = self.rr_children[rr_index].rock_ridge\n                    if other_rr is not None and other_rr.name() == child.rock_ridge.name() and not other_rr.relocated_record():\n                        raise pycdlibexception.PyCdlibInvalidInput('Failed adding duplicate Rock Ridge name to parent')\n")], 'found by scanning')
+
+# ---------------------------------------------------------------- seeding round 6
+M('joliet-size-reduced-by-sectors', 'fault', ['C17', 'C04'], ['SA-UNITS.bytes'],
+  [(PY, "                    self.joliet_vd.remove_from_space_size(record.get_data_length())\n", "                    self.joliet_vd.remove_from_space_size(old_num_extents)\n")], 'modify_file_in_place')
+M('udf-symlink-accounted-in-blocks', 'fault', ['C04', 'C10'], ['SA-UNITS.bytes'],
+  [(PY, "            num_bytes_to_add += file_entry.info_len\n", "            num_bytes_to_add += file_entry.log_block_recorded\n")], 'add_symlink')
+M('twin-symlink-accounting-through-a-local', 'twin', ['C04', 'C10', 'C17', 'C01'], [],
+  [(PY, "            num_bytes_to_add += file_entry.info_len\n", "            target_bytes = file_entry.info_len\n            num_bytes_to_add += target_bytes\n")])
+M('relocation-rename-single-pass', 'fault', ['C18', 'C13'], ['SA-GATE.rescan'],
+  [(PY, "                            iso9660_name = name[:maxlen - len(suffix)] + suffix\n                            index += 1\n                            break\n                    else:\n                        break\n",
+    "                            iso9660_name = name[:maxlen - len(suffix)] + suffix\n                            index += 1\n                    break\n")], 'add_directory')
+M('symlink-entry-flag-only-on-split-component', 'fault', ['C08'], ['SA-SIB.continued'],
+  [(RR, "                    curr_sl.set_continued()\n                    if offset != 0:\n                        # If we need to continue this particular\n                        # *component* in the next SL record, then we\n                        # also need to mark the curr_sl's last component\n                        # header as continued.\n                        curr_sl.set_last_component_continued()\n",
+    "                    if offset != 0:\n                        # If we need to continue this particular\n                        # *component* in the next SL record, then we\n                        # also need to mark the curr_sl's last component\n                        # header as continued.\n                        curr_sl.set_continued()\n                        curr_sl.set_last_component_continued()\n")], '_new_symlink')
+M('boot-images-placed-only-until-first-without-hybrid', 'fault', ['C11', 'C12', 'C01'], ['SA-MIRROR.invariant_break'],
+  [(PY, "                if self.isohybrid_mbr is None or id(enc.entry) in hybrid_entries:\n                    continue\n",
+    "                if self.isohybrid_mbr is None:\n                    break\n                if id(enc.entry) in hybrid_entries:\n                    continue\n")], '_reshuffle_extents')
+M('backup-gpt-placed-with-capped-cylinders', 'fault', ['C12'], ['SA-FRESH.clamped'],
+  [(ISOH, "        padlen = self._calc_cc(iso_size)[1]\n        size_and_padlen = iso_size + padlen\n        secondary_lba = (size_and_padlen - 512) // 512\n",
+    "        cc = self._calc_cc(iso_size)[0]\n        size_and_padlen = cc * self.geometry_heads * self.geometry_sectors * 512\n        secondary_lba = (size_and_padlen - 512) // 512\n")], 'update_efi')
+M('extract-saves-cwd-after-leaving-it', 'fault', ['C20'], ['SA-PAIR.cwd'],
+  [(EXT, "                old_dir = os.getcwd()\n                os.chdir(local_dir)\n", "                os.chdir(local_dir)\n                old_dir = os.getcwd()\n")], 'old_dir')
+M('hundredths-rounded-into-three-digits', 'fault', ['C19'], ['SA-DATE.width'],
+  [(DT, "            self.second = local.tm_sec\n            self.hundredthsofsecond = 0\n            self.gmtoffset = utils.gmtoffset_from_tm(tm, local)\n",
+    "            self.second = local.tm_sec\n            self.hundredthsofsecond = int(round((tm - int(tm)) * 100))\n            self.gmtoffset = utils.gmtoffset_from_tm(tm, local)\n")], 'VolumeDescriptorDate.new')
+M('twin-hundredths-truncated-modulo', 'twin', ['C19'], [],
+  [(DT, "            self.second = local.tm_sec\n            self.hundredthsofsecond = 0\n            self.gmtoffset = utils.gmtoffset_from_tm(tm, local)\n",
+    "            self.second = local.tm_sec\n            self.hundredthsofsecond = int((tm - int(tm)) * 100) % 100\n            self.gmtoffset = utils.gmtoffset_from_tm(tm, local)\n")])
+M('part-start-sampled-after-all-parts-entered', 'fault', ['C16'], ['SA-SEEK.position'],
+  [(IOF, "        for ctxt in self._ctxts:\n            (fp, length) = ctxt.__enter__()\n            self._parts.append((fp, fp.tell(), self._length, length))\n",
+    "        opened = [ctxt.__enter__() for ctxt in self._ctxts]\n        for (fp, length) in opened:\n            self._parts.append((fp, fp.tell(), self._length, length))\n")], 'start of a part')
+M('dotdot-length-copied-from-the-subdirectory', 'fault', ['C09', 'C03', 'C01'], ['SA-MIRROR.total'],
+  [(DR, "                if len(c.children) > 1:\n                    c.children[1].data_length = self.data_length\n            underflow = True\n",
+    "                if len(c.children) > 1:\n                    c.children[1].data_length = c.data_length\n            underflow = True\n")], 'remove_child')
+M('read-recomputes-when-boot-info-table', 'fault', ['C06', 'C17'], ['SA-GUARD.layout'],
+  [(PY, "        if rec.inode.boot_info_table is not None and self._needs_reshuffle:\n", "        if self._needs_reshuffle or rec.inode.boot_info_table is not None:\n")], 'open_file_from_iso')
+M('end-cylinder-mask-shifted-first', 'fault', ['C12', 'C05'], ['SA-SYM.mask'],
+  [(ISOH, "                ecyle |= (esect & 0xc0) << 2\n", "                ecyle |= esect & 0xc0 << 2\n")], 'IsoHybrid.parse')
+M('directory-blocks-counted-from-the-length-field', 'fault', ['C15'], ['SA-TERM.range'],
+  [(PY, "                               dir_record.extent_location() + utils.ceiling_div(len(data), self.logical_block_size)):\n",
+    "                               dir_record.extent_location() + utils.ceiling_div(length, self.logical_block_size)):\n")], '_walk_directories')
+M('inplace-length-set-on-the-addressed-record-only', 'fault', ['C03', 'C17', 'C07'], ['SA-LINKS.every'],
+  [(PY, "            record.set_data_length(length)\n            self._cdfp.seek(abs_offset)\n", "            child.set_data_length(length)\n            self._cdfp.seek(abs_offset)\n")], 'on a fixed record')
+M('layout-guard-only-in-lazy-mode', 'fault', ['C14', 'C17'], ['SA-GUARD.layout'],
+  [(PY, "        self._layout_changed = True\n\n        if self._always_consistent:\n            self._reshuffle_extents()\n        else:\n            self._needs_reshuffle = True\n\n    def _finish_remove(",
+    "        if self._always_consistent:\n            self._reshuffle_extents()\n        else:\n            self._layout_changed = True\n            self._needs_reshuffle = True\n\n    def _finish_remove(")], '_finish_add')
